@@ -24,4 +24,5 @@ LEMMAS = {"counts.extract": lemma_counts("trees.grammar.extract", 1),
           "extract.distinct_numbers": xb.lemma_distinct_numbers,
           "extract.tokens_have_places": xb.lemma_tokens_have_places,
           "extract.lin_blocks": xb.lemma_lin_blocks,
-          "extract.vertical_context": xb.lemma_vertical_context}
+          "extract.vertical_context": xb.lemma_vertical_context,
+          "extract.lexicon": xb.lemma_lexicon}
